@@ -2549,7 +2549,108 @@ func ruleWitnessCoveredShortcut(c *Ctx) {
 // traceability window of Ledger.getBlock would follow the tip, and a call that returned a block at height h returns
 // null when replayed for h later. Inside the natives and the interop layer only interop.Context's own accessors may
 // read the ledger's current height or tip hash.
+// historicContextInputs (context-height, C03/C01): the same for the ledger's side of a historic invocation. What
+// Blockchain.GetTestHistoricVM puts into the context it builds - the fake next block, the DAO - is derived from the
+// state of the requested height. A zero-parameter getter of Blockchain that hands bc.dao (the *current* state) to a
+// native (GetMillisecondsPerBlock, GetMaxValidUntilBlockIncrement, ...) may be consulted there in a condition only (is
+// the requested height still retained?), never for a value: System.Runtime.GetTime of a historic invocation would
+// follow the committee's later changes of the block time (finding 90).
+func historicContextInputs(c *Ctx) {
+	root := c.P.Func("pkg/core", "Blockchain", "GetTestHistoricVM")
+	if root == nil {
+		c.Lost("historic-context-inputs.anchor", "Blockchain.GetTestHistoricVM not found")
+		return
+	}
+	isBC := func(fn *types.Func) bool {
+		sig, _ := fn.Type().(*types.Signature)
+		if sig == nil || sig.Recv() == nil {
+			return false
+		}
+		return namedTypeIsPtr(sig.Recv().Type(), "github.com/nspcc-dev/neo-go/pkg/core", "Blockchain")
+	}
+	// getters of the current state: zero-parameter methods of *Blockchain that pass the receiver's dao on
+	getters := map[*types.Func]bool{}
+	for _, fd := range c.P.AllFuncDecls() {
+		if fd.Decl.Body == nil || fd.Decl.Recv == nil || !isBC(fd.Obj) || len(fd.Decl.Recv.List[0].Names) == 0 {
+			continue
+		}
+		if fd.Obj.Type().(*types.Signature).Params().Len() != 0 {
+			continue
+		}
+		info := fd.Pkg.TypesInfo
+		recv := info.ObjectOf(fd.Decl.Recv.List[0].Names[0])
+		ast.Inspect(fd.Decl.Body, func(x ast.Node) bool {
+			call, ok := x.(*ast.CallExpr)
+			if !ok {
+				return true
+			}
+			for _, a := range call.Args {
+				if se, ok := ast.Unparen(a).(*ast.SelectorExpr); ok && se.Sel.Name == "dao" {
+					if id, ok := ast.Unparen(se.X).(*ast.Ident); ok && info.ObjectOf(id) == recv {
+						getters[fd.Obj] = true
+					}
+				}
+			}
+			return true
+		})
+	}
+	c.Floor("zero-parameter getters of Blockchain over the current DAO", len(getters), 5)
+	seen := map[*FuncDecl]bool{}
+	n := 0
+	var visit func(fd *FuncDecl, depth int, via string)
+	visit = func(fd *FuncDecl, depth int, via string) {
+		if fd == nil || fd.Decl.Body == nil || seen[fd] || depth > 2 {
+			return
+		}
+		seen[fd] = true
+		info := fd.Pkg.TypesInfo
+		inCond := map[ast.Node]bool{}
+		ast.Inspect(fd.Decl.Body, func(x ast.Node) bool {
+			if is, ok := x.(*ast.IfStmt); ok {
+				for _, part := range []ast.Node{is.Init, is.Cond} {
+					if part != nil {
+						ast.Inspect(part, func(y ast.Node) bool {
+							if y != nil {
+								inCond[y] = true
+							}
+							return true
+						})
+					}
+				}
+			}
+			return true
+		})
+		inspectNoLit(fd.Decl.Body, func(x ast.Node) bool {
+			call, ok := x.(*ast.CallExpr)
+			if !ok {
+				return true
+			}
+			fn := calleeFunc(info, call)
+			if fn == nil || !isBC(fn) {
+				return true
+			}
+			if getters[fn] {
+				n++
+				key := fmt.Sprintf("historic-context-inputs.%s#%d", shortSym(FuncKey(fd.Obj)), n)
+				if inCond[call] {
+					c.OK(key, c.P.Pos(call.Pos()), shortSym(FuncKey(fn))+" consulted in a condition (what the node retains now)")
+				} else {
+					c.Fail(key, c.P.Pos(call.Pos()), fmt.Sprintf("%s%s takes a value from %s, which reads the *current* state (bc.dao), while building the context of a historic invocation: what the script sees (the time of the block it runs in) follows later changes of the chain's settings instead of those in force at the requested height - the invocation no longer returns what the live node returned at that height", FuncKey(fd.Obj), via, shortSym(FuncKey(fn))))
+				}
+				return true
+			}
+			visit(c.P.DeclOf(fn), depth+1, " (reached from "+shortSym(FuncKey(fd.Obj))+")")
+			return true
+		})
+	}
+	visit(root, 0, "")
+	if n == 0 {
+		c.OK("historic-context-inputs", c.P.Pos(root.Decl.Pos()), "GetTestHistoricVM and the Blockchain methods it calls consult no getter of the current state")
+	}
+}
+
 func ruleContextHeight(c *Ctx) {
+	historicContextInputs(c)
 	live := []string{"pkg/core/interop.(Ledger).BlockHeight", "pkg/core/interop.(Ledger).CurrentBlockHash", "pkg/core/interop.(Ledger).HeaderHeight"}
 	n, nAcc := 0, 0
 	for _, fd := range c.P.AllFuncDecls() {
